@@ -7,6 +7,7 @@ import HctlModel.Api
 namespace Hctl.C04
 open Hctl Kripke
 
+section main
 variable {C : CharClass} {E : Env} (hE : EnvOK E) (hG : GraphWF E.G) {K : SemCtx} (hK : CtxOK E K) {U0 : CSet}
   (hC : Lex.CharsOK C) (hSC : CtxSC K) (hU0 : ∀ p ∈ E.pts, ∀ i t, t < E.G.nS → U0 (p.setV i t) = U0 p)
   (hA : C12.GraphAsync E.G)
@@ -81,4 +82,281 @@ omit hK hC hSC hU0 hA in
 theorem init_cacheOK_noSharing : CacheOK C E noCtx U0 { dups := [] } :=
   init_cacheOK_plain hE hG [] (fun _ _ h => by simp [dupGet] at h)
 
+end main
+
+/-- the context of the extended entry points: wild-card and domain sets looked up by name -/
+def ctxOf (props doms : List (Name × CSet)) : SemCtx := ⟨fun n => props.lookup n, fun n => doms.lookup n⟩
+
+theorem lookup_of_mem_nodup {α : Type} : ∀ (l : List (Name × α)) (e : Name × α), (l.map Prod.fst).Nodup → e ∈ l →
+    l.lookup e.1 = some e.2 := by
+  intro l
+  induction l with
+  | nil => intro e _ h; simp at h
+  | cons x l ih =>
+    intro e hn he
+    obtain ⟨k, v⟩ := x
+    simp only [List.map_cons, List.nodup_cons] at hn
+    simp only [List.mem_cons] at he
+    simp only [List.lookup]
+    rcases he with rfl | he
+    · simp
+    · have hne : e.1 ≠ k := by
+        intro h
+        apply hn.1
+        rw [← h]
+        exact List.mem_map.mpr ⟨e, he, rfl⟩
+      have : (e.1 == k) = false := beq_eq_false_iff_ne.mpr hne
+      simp only [this]
+      exact ih e hn.2 he
+
+theorem lookup_mem_gen {α : Type} {w : Name} {a : α} : ∀ (l : List (Name × α)), l.lookup w = some a → (w, a) ∈ l := by
+  intro l
+  induction l with
+  | nil => intro h; simp at h
+  | cons x ps ih =>
+    intro h
+    obtain ⟨k, v⟩ := x
+    simp only [List.lookup] at h
+    by_cases hk : w = k
+    · subst hk; simp at h; subst h; simp
+    · have hb : (w == k) = false := beq_eq_false_iff_ne.mpr hk
+      simp only [hb] at h
+      exact List.mem_cons_of_mem _ (ih h)
+
+theorem wkey_inj {a b : Name} (h : wkey a = wkey b) : a = b := by
+  simp only [wkey, Prod.mk.injEq, and_true] at h
+  have := List.append_cancel_right h
+  simpa using this
+
+/-- one step of the wild-card loop of `extend_context_with_wild_cards` -/
+def wildStep (c : ECtx) (e : Name × CSet) : ECtx :=
+  let key : Key := ('%' :: e.1 ++ ['%'], [])
+  let dups := match dupGet key c.dups with
+    | some n => dupSet key (n + 1) c.dups
+    | none => dupSet key 1 c.dups
+  { c with dups := dups, cache := cacheInsert key (e.2, []) c.cache }
+
+structure WInv (D : DupMap) (done : List (Name × CSet)) (c : ECtx) : Prop where
+  i1 : ∀ key R rren, cacheGet key c.cache = some (R, rren) → ∃ e ∈ done, key = wkey e.1 ∧ R = e.2 ∧ rren = []
+  i2 : ∀ e ∈ done, cacheGet (wkey e.1) c.cache = some (e.2, []) ∧ (dupGet (wkey e.1) c.dups).isSome = true
+  i3 : ∀ key n, dupGet key c.dups = some n → (∃ e ∈ done, key = wkey e.1) ∨ (dupGet key D).isSome = true
+
+theorem winv_step {D : DupMap} {done : List (Name × CSet)} {c : ECtx} (h : WInv D done c) (e : Name × CSet)
+    (hnew : ∀ e' ∈ done, e'.1 ≠ e.1) : WInv D (done ++ [e]) (wildStep c e) := by
+  have hk : (('%' :: e.1 ++ ['%'], []) : Key) = wkey e.1 := rfl
+  refine ⟨?_, ?_, ?_⟩
+  · intro key R rren hg
+    simp only [wildStep, hk] at hg
+    by_cases hkey : key = wkey e.1
+    · subst hkey
+      rw [cacheGet_insert_same] at hg
+      cases hg
+      exact ⟨e, by simp, rfl, rfl, rfl⟩
+    · rw [cacheGet_insert_ne _ _ _ _ hkey] at hg
+      obtain ⟨e', he', h1, h2, h3⟩ := h.i1 key R rren hg
+      exact ⟨e', by simp [he'], h1, h2, h3⟩
+  · intro e' he'
+    simp only [List.mem_append, List.mem_singleton] at he'
+    simp only [wildStep, hk]
+    have hd : ∀ k, (dupGet k c.dups).isSome = true ∨ k = wkey e.1 →
+        (dupGet k (match dupGet (wkey e.1) c.dups with
+          | some n => dupSet (wkey e.1) (n + 1) c.dups
+          | none => dupSet (wkey e.1) 1 c.dups)).isSome = true := by
+      intro k hk'
+      cases hdg : dupGet (wkey e.1) c.dups with
+      | some n =>
+        simp only
+        rcases hk' with h' | rfl
+        · exact dupGet_set_isSome _ _ _ _ h'
+        · simp [dupGet_set_same]
+      | none =>
+        simp only
+        rcases hk' with h' | rfl
+        · exact dupGet_set_isSome _ _ _ _ h'
+        · simp [dupGet_set_same]
+    rcases he' with he' | rfl
+    · have hne : wkey e'.1 ≠ wkey e.1 := fun hh => hnew e' he' (wkey_inj hh)
+      rw [cacheGet_insert_ne _ _ _ _ hne]
+      exact ⟨(h.i2 e' he').1, hd _ (Or.inl (h.i2 e' he').2)⟩
+    · rw [cacheGet_insert_same]
+      exact ⟨rfl, hd _ (Or.inr rfl)⟩
+  · intro key n hg
+    simp only [wildStep, hk] at hg
+    by_cases hkey : key = wkey e.1
+    · exact Or.inl ⟨e, by simp, hkey⟩
+    · have : dupGet key c.dups = some n := by
+        cases hdg : dupGet (wkey e.1) c.dups with
+        | some m => simp only [hdg] at hg; rwa [dupGet_set_ne _ _ _ _ hkey] at hg
+        | none => simp only [hdg] at hg; rwa [dupGet_set_ne _ _ _ _ hkey] at hg
+      rcases h.i3 key n this with ⟨e', he', h1⟩ | h1
+      · exact Or.inl ⟨e', by simp [he'], h1⟩
+      · exact Or.inr h1
+
+theorem winv_fold {D : DupMap} : ∀ (todo done : List (Name × CSet)) (c : ECtx), WInv D done c →
+    ((done ++ todo).map Prod.fst).Nodup → WInv D (done ++ todo) (todo.foldl wildStep c) := by
+  intro todo
+  induction todo with
+  | nil => intro done c h _; simpa using h
+  | cons e todo ih =>
+    intro done c h hn
+    have hnew : ∀ e' ∈ done, e'.1 ≠ e.1 := by
+      intro e' he' heq
+      simp only [List.map_append, List.map_cons] at hn
+      rw [List.nodup_append] at hn
+      exact hn.2.2 e'.1 (List.mem_map.mpr ⟨e', he', rfl⟩) e.1 (by simp) heq
+    have := ih (done ++ [e]) (wildStep c e) (winv_step h e hnew) (by simpa using hn)
+    simpa using this
+
+theorem lookup_filter_ne (l k : Name) (hlk : l ≠ k) : ∀ (acc : List (Name × CSet)),
+    (acc.filter (fun x => x.1 != k)).lookup l = acc.lookup l := by
+  intro acc
+  induction acc with
+  | nil => rfl
+  | cons x acc ih =>
+    obtain ⟨k', v'⟩ := x
+    simp only [List.filter_cons]
+    by_cases hd' : k' = k
+    · have h1 : ((k', v').1 != k) = false := by simp [hd']
+      have hb' : (l == k') = false := beq_eq_false_iff_ne.mpr (by rw [hd']; exact hlk)
+      simp only [h1, Bool.false_eq_true, if_false, List.lookup, hb']
+      exact ih
+    · have h1 : ((k', v').1 != k) = true := by simpa using hd'
+      simp only [h1, if_true, List.lookup]
+      rw [ih]
+
+theorem domFold_keep (l : Name) (a : CSet) : ∀ (ds : List (Name × CSet)) (acc : List (Name × CSet)),
+    l ∉ ds.map Prod.fst → acc.lookup l = some a →
+    (ds.foldl (fun acc e => (e.1, e.2) :: acc.filter (fun x => x.1 != e.1)) acc).lookup l = some a := by
+  intro ds
+  induction ds with
+  | nil => intro acc _ h; exact h
+  | cons d ds ih =>
+    intro acc hnot hacc
+    simp only [List.map_cons, List.mem_cons, not_or] at hnot
+    simp only [List.foldl_cons]
+    apply ih _ hnot.2
+    have hb : (l == d.1) = false := beq_eq_false_iff_ne.mpr hnot.1
+    simp only [List.lookup, hb]
+    rw [lookup_filter_ne l d.1 hnot.1]
+    exact hacc
+
+theorem domFold_lookup : ∀ (doms : List (Name × CSet)) (acc : List (Name × CSet)), (doms.map Prod.fst).Nodup →
+    ∀ l a, doms.lookup l = some a →
+      (doms.foldl (fun acc e => (e.1, e.2) :: acc.filter (fun x => x.1 != e.1)) acc).lookup l = some a := by
+  intro doms
+  induction doms with
+  | nil => intro acc _ l a h; simp at h
+  | cons e doms ih =>
+    intro acc hn l a h
+    obtain ⟨k, v⟩ := e
+    simp only [List.map_cons, List.nodup_cons] at hn
+    simp only [List.foldl_cons]
+    simp only [List.lookup] at h
+    by_cases hl : l = k
+    · subst hl
+      simp at h
+      subst h
+      exact domFold_keep l v doms _ hn.1 (by simp [List.lookup])
+    · have hb : (l == k) = false := beq_eq_false_iff_ne.mpr hl
+      simp only [hb] at h
+      exact ih _ hn.2 l a h
+
+theorem extend_eq (ctx : ECtx) (props doms : List (Name × CSet)) :
+    ctx.extendWithWildCards props doms =
+      { props.foldl wildStep ctx with
+        domRaw := doms.foldl (fun acc e => (e.1, e.2) :: acc.filter (fun x => x.1 != e.1)) (props.foldl wildStep ctx).domRaw } := rfl
+
+/-- MAIN (initial context of the extended entry points): the context built by `extend_context_with_wild_cards` from
+ANY duplicate map whose keys have at most one variable satisfies the cache invariant for the evaluation context given
+by the (deduplicated) wild-card and domain sets — so `cache_transparent` / `batch_sound` apply to the extended entry
+points from their very first call. -/
+theorem init_cacheOK_ext {C : CharClass} (hC : Lex.CharsOK C) {E : Env} {U0 : CSet} (D : DupMap)
+    (props doms : List (Name × CSet)) (hp : (props.map Prod.fst).Nodup) (hd : (doms.map Prod.fst).Nodup)
+    (hD : ∀ key n, dupGet key D = some n → ∀ t U ds ren, GoodQ C E (ctxOf props doms) U0 t U ds →
+      keyOf t (fvdOf ds) = (key, ren) → ren.length ≤ 1) :
+    CacheOK C E (ctxOf props doms) U0 (({ dups := D } : ECtx).extendWithWildCards props doms) := by
+  have h0 : WInv D [] ({ dups := D } : ECtx) :=
+    ⟨fun _ _ _ h => by simp [cacheGet] at h, fun _ h => by simp at h, fun key n h => Or.inr (by simp [h])⟩
+  have hw := winv_fold props [] _ h0 (by simpa using hp)
+  simp only [List.nil_append] at hw
+  have hKW := keyWild_holds hC E (ctxOf props doms) U0
+  rw [extend_eq]
+  refine ⟨?_, ?_, ?_, ?_⟩
+  · intro key R rren hg
+    left
+    obtain ⟨e, he, h1, h2, h3⟩ := hw.i1 key R rren hg
+    exact ⟨e.1, e.2, h1, lookup_of_mem_nodup props e hp he, h2, h3⟩
+  · intro w a hwa
+    have hmem : (w, a) ∈ props := lookup_mem_gen props hwa
+    exact hw.i2 (w, a) hmem
+  · intro l a hla
+    exact domFold_lookup doms _ hd l a hla
+  · intro key n hg t U ds ren hq hkey
+    rcases hw.i3 key n hg with ⟨e, _, h1⟩ | h1
+    · have := hKW.key_wild t U ds e.1 ren hq (by rw [← h1]; exact hkey)
+      subst this
+      have hv : Lex.ValidId C e.1 := by simpa [Lex.TreeOK] using hq.valid.1
+      rw [hKW.wild_key e.1 ds hv] at hkey
+      have : ren = [] := by cases hkey; rfl
+      simp [this]
+    · cases hdg : dupGet key D with
+      | none => simp [hdg] at h1
+      | some m => exact hD key m hdg t U ds ren hq hkey
+
+theorem dedupNames_nodup (l : List (Name × CSet)) : ((Api.dedupNames l).map Prod.fst).Nodup := by
+  unfold Api.dedupNames
+  have key : ∀ (l acc : List (Name × CSet)), (acc.map Prod.fst).Nodup →
+      ((l.foldl (fun acc e => if acc.any (fun x => x.1 == e.1) then acc else acc ++ [e]) acc).map Prod.fst).Nodup := by
+    intro l
+    induction l with
+    | nil => intro acc h; exact h
+    | cons e l ih =>
+      intro acc h
+      simp only [List.foldl_cons]
+      apply ih
+      by_cases ha : acc.any (fun x => x.1 == e.1) = true
+      · simp only [ha, if_true]; exact h
+      · simp only [ha, if_false, Bool.false_eq_true, List.map_append, List.map_cons, List.map_nil]
+        rw [List.nodup_append]
+        refine ⟨h, by simp, ?_⟩
+        intro a haa b hb
+        simp only [List.mem_singleton] at hb
+        subst hb
+        intro hab
+        subst hab
+        apply ha
+        obtain ⟨x, hx, hxe⟩ := List.mem_map.mp haa
+        exact List.any_eq_true.mpr ⟨x, hx, by simp [hxe]⟩
+  exact key l [] (by simp)
+
+theorem wildFold_fvd : ∀ (l : List (Name × CSet)) (c : ECtx), (l.foldl wildStep c).fvd = c.fvd := by
+  intro l
+  induction l with
+  | nil => intro c; rfl
+  | cons e l ih => intro c; simp only [List.foldl_cons]; rw [ih]; rfl
+
+section
+variable {C : CharClass} (hC : Lex.CharsOK C) {E : Env} (hE : EnvOK E) (hG : GraphWF E.G) (hA : C12.GraphAsync E.G)
+include hC hE hG hA
+
+/-- END TO END, extended entry points (`model_check_multiple_extended_formulae_dirty` after parsing): evaluating the
+preprocessed trees in the context built from the duplicate map and the wild-card / domain sets returns, position by
+position, exactly the satisfaction sets under the reference semantics. -/
+theorem extended_batch_sound (U0 : CSet) (trees : List Tree) (D : DupMap) (props doms : List (Name × CSet))
+    (hK : CtxOK E (ctxOf (Api.dedupNames props) (Api.dedupNames doms)))
+    (hSC : CtxSC (ctxOf (Api.dedupNames props) (Api.dedupNames doms)))
+    (hU0 : ∀ p ∈ E.pts, ∀ i t, t < E.G.nS → U0 (p.setV i t) = U0 p)
+    (hq : ∀ t ∈ trees, GoodQ C E (ctxOf (Api.dedupNames props) (Api.dedupNames doms)) U0 t U0 [])
+    (hD : ∀ key n, dupGet key D = some n → ∀ t U ds ren,
+      GoodQ C E (ctxOf (Api.dedupNames props) (Api.dedupNames doms)) U0 t U ds →
+      keyOf t (fvdOf ds) = (key, ren) → ren.length ≤ 1) :
+    ∃ rs, Api.evalAll E (Ops.steadyOf E U0) U0 trees
+        (({ dups := D } : ECtx).extendWithWildCards (Api.dedupNames props) (Api.dedupNames doms)) = .ok rs ∧
+      rs.length = trees.length ∧
+      ∀ i (hi : i < trees.length) (hi' : i < rs.length),
+        Sem E rs[i] U0 (sat E.G (ctxOf (Api.dedupNames props) (Api.dedupNames doms)) trees[i]) := by
+  have hc := init_cacheOK_ext hC (E := E) (U0 := U0) D _ _ (dedupNames_nodup props) (dedupNames_nodup doms) hD
+  exact batch_sound hE hG hK hC hSC hU0 hA trees _ hq (by simp [extend_eq, wildFold_fvd]) hc
+
+end
 end Hctl.C04
